@@ -1964,3 +1964,121 @@ Proof.
   - apply ib_spec_49; exact CB.
   - apply ib_spec_50; exact CB.
 Qed.
+
+Lemma step_in_body_gen_ok (ih it self : body) : ib_cb ih it self ->
+  forall s t, TInv s -> late s -> (saving_mode (mode s) = false \/ is_chars t = true) -> scalar_tok t ->
+  wp (step_in_body_gen ih it self t) (ib_post t) s.
+Proof.
+  intros CB s t I L NSC Sc. unfold step_in_body_gen.
+  eapply (wp_dispatch_specs _ _ _ ib_arm_spec); [apply total_in_body | apply (aligned_all ih it self) | apply in_body_specs; exact CB |].
+  intros k b Sp Ek Hm Hn. apply Sp; try assumption.
+  eapply TInv_core_eq; [apply core_eq_set_out | exact I].
+Qed.
+
+(* ---------- "in template" ---------- *)
+Definition it_cb (ih ib : body) : Prop :=
+  (forall s t, TInv s -> late s -> saving_mode (mode s) = false -> scalar_tok t ->
+               head_matches t (nth 2 heads_in_template []) = true -> wp (ih t) (step_post t) s) /\
+  (forall s t, TInv s -> late s -> (saving_mode (mode s) = false \/ is_chars t = true) -> scalar_tok t ->
+               (is_chars t = true \/ exists c, t = KComment c) -> wp (ib t) (ib_post t) s).
+
+Lemma TInv_switch_template_mode s m : TInv s -> template_mode m = true ->
+  TInv (set_template_modes (vpush (vpop (template_modes s)) m) s).
+Proof.
+  intros [I1 I2 I3 I4 I5 I6 I7 I8 I9 I10 I11] T. constructor; try assumption.
+  - unfold tm_ok, tcount in *. cbn [open_elems context_elem template_modes set_template_modes].
+    change (is_template (set_template_modes (vpush (vpop (template_modes s)) m) s)) with (is_template s).
+    unfold vpush, vpop. rewrite app_length, removelast_firstn, firstn_length. cbn [List.length]. lia.
+  - unfold tmodes_ok in *. cbn [template_modes set_template_modes]. unfold vpush, vpop. apply Forall_app. split.
+    + rewrite removelast_firstn. rewrite Forall_forall in *. intros x Hx. apply I11. eapply In_firstn; exact Hx.
+    + constructor; [exact T | constructor].
+Qed.
+
+Lemma wp_switch_template_mode s t m :
+  TInv s -> late s -> saving_mode (mode s) = false -> template_mode m = true -> is_chars t = false ->
+  wp (switch_template_mode m t) (step_post t) s.
+Proof.
+  intros I L NS T C. unfold switch_template_mode. rewrite wp_bind, wp_modify, wp_ret.
+  pose proof (TInv_switch_template_mode s m I T) as I1.
+  destruct (template_mode_props m T) as (Em & Sm & Hm).
+  split; [|apply res_ok_nonchars; exact C]. split; [|intro X; rewrite X in Sm; discriminate].
+  apply (keeps_set_mode (set_template_modes (vpush (vpop (template_modes s)) m) s)); [apply keeps_refl; exact I1 | exact L | exact NS | exact Em | exact Sm | rewrite Hm; discriminate].
+Qed.
+
+Lemma in_template_arm_facts :
+  forallb atom_is_chars (nth 0 heads_in_template []) = true /\
+  nth 1 heads_in_template [] = [AComment] /\
+  forallb atom_is_tag (nth 2 heads_in_template []) = true /\
+  forallb (fun k => forallb atom_is_tag (nth k heads_in_template [])) [3; 4; 5; 6; 8] = true /\
+  nth 7 heads_in_template [] = [AEof].
+Proof. repeat split; reflexivity. Qed.
+
+Lemma step_in_template_gen_ok (ih ib : body) : it_cb ih ib ->
+  forall s t, TInv s -> late s -> (saving_mode (mode s) = false \/ is_chars t = true) -> scalar_tok t ->
+  wp (step_in_template_gen ih ib t) (step_post t) s.
+Proof.
+  intros [HIH HIB] s t I L NSC Sc. unfold step_in_template_gen.
+  apply wp_arm_dispatch; [apply total_in_template | apply (aligned_all ih ib ib) |].
+  intros k b Ek Eb Hm Hn.
+  pose proof (TInv_arm s (mode_id InTemplate) k I) as I1. set (s1 := set_out _ s) in *.
+  assert (L1 : late s1) by exact L.
+  destruct in_template_arm_facts as (F0 & F1 & F2 & FT & F7).
+  assert (NSof : is_chars t = false -> saving_mode (mode s1) = false).
+  { intro C. destruct NSC as [X|X]; [exact X | rewrite C in X; discriminate]. }
+  assert (Tag : In k [3; 4; 5; 6; 8] -> is_chars t = false).
+  { intro Hk. apply (head_tag_not_chars (nth k heads_in_template [])); [|exact Hm].
+    exact (forallb_nth_in (fun k => forallb atom_is_tag (nth k heads_in_template [])) [3; 4; 5; 6; 8] k FT Hk). }
+  arm_cases k Eb.
+  - (* 0 chars *) pose proof (head_all_chars _ _ F0 Hm) as C.
+    eapply wp_mono; [apply HIB; [exact I1 | exact L1 | right; exact C | exact Sc | left; exact C]|]. intros r s' [P _]. exact P.
+  - (* 1 comment *) rewrite F1 in Hm. unfold head_matches in Hm. destruct t as [g|c|sp c| |]; simpl in Hm; try discriminate.
+    eapply wp_mono; [apply HIB; [exact I1 | exact L1 | left; apply NSof; reflexivity | exact Sc | right; eauto]|]. intros r s' [P _]. exact P.
+  - (* 2 *) pose proof (head_tag_not_chars _ _ F2 Hm) as C. apply HIH; [exact I1 | exact L1 | apply NSof; exact C | exact Sc | exact Hm].
+  - (* 3 *) assert (C : is_chars t = false) by (apply Tag; simpl; tauto). apply wp_switch_template_mode; [exact I1 | exact L1 | apply NSof; exact C | reflexivity | exact C].
+  - (* 4 *) assert (C : is_chars t = false) by (apply Tag; simpl; tauto). apply wp_switch_template_mode; [exact I1 | exact L1 | apply NSof; exact C | reflexivity | exact C].
+  - (* 5 *) assert (C : is_chars t = false) by (apply Tag; simpl; tauto). apply wp_switch_template_mode; [exact I1 | exact L1 | apply NSof; exact C | reflexivity | exact C].
+  - (* 6 *) assert (C : is_chars t = false) by (apply Tag; simpl; tauto). apply wp_switch_template_mode; [exact I1 | exact L1 | apply NSof; exact C | reflexivity | exact C].
+  - (* 7 Eof *) rewrite F7 in Hm. unfold head_matches in Hm. destruct t as [g|c|sp c| |]; simpl in Hm; try discriminate.
+    assert (NS1 : saving_mode (mode s1) = false) by (apply NSof; reflexivity).
+    rewrite wp_bind, wp_get.
+    destruct (negb (in_html_elem_named s1 (nm "template"))) eqn:Neg.
+    { rewrite wp_ret. apply step_post_done. exact I1. }
+    apply negb_false_iff in Neg. unfold in_html_elem_named in Neg. apply existsb_exists in Neg. destruct Neg as (x & Hin & Hx).
+    apply ename_eqb_eq in Hx.
+    rewrite wp_bind, wp_parse_error, wp_bind. unfold pop_until_named.
+    set (s2 := set_out _ s1). assert (I2 : TInv s2) by (eapply TInv_core_eq; [apply core_eq_set_out | exact I1]).
+    eapply (wp_pop_until_strong s2); [apply keeps_refl; exact I2 | exact L1 | reflexivity | |].
+    { exists x. split; [exact Hin|]. change (ename_eqb (ename_of s1 x) (ns_html, nm "template") = true). rewrite Hx. apply ename_eqb_refl. }
+    intros n s3 K3 _ (k & e & Lk & E3 & Ee & Pe). pose proof K3 as [I3 S3].
+    assert (T3 : tcount s3 + 1 <= length (template_modes s3)).
+    { assert (F3 : Forall (known s2) (open_elems s3)).
+      { rewrite E3. apply Forall_forall. intros h Hh. eapply TInv_stack_known; [exact I2 | eapply In_firstn; exact Hh]. }
+      rewrite (tcount_as_of s2 s3 I2 S3 F3), (st_tm _ _ S3). unfold tcount_of. rewrite E3.
+      pose proof (inv_tm _ I2) as T2. unfold tm_ok, tcount in T2.
+      assert (Te : is_template s2 e = true) by exact Pe.
+      pose proof (filter_length_firstn_lt (is_template s2) (open_elems s2) k e Ee Te). lia. }
+    rewrite wp_bind.
+    eapply (wp_clear_active_formatting_to_marker s3); [apply keeps_refl; exact I3|]. intros s4 K4 E4. pose proof K4 as [I4 S4].
+    rewrite wp_bind, wp_modify.
+    assert (T4 : tcount s4 + 1 <= length (template_modes s4)).
+    { rewrite (tcount_stable s3 s4 I3 S4 E4), (st_tm _ _ S4). exact T3. }
+    pose proof (TInv_pop_template_mode s4 I4 T4) as I5. set (s5 := set_template_modes _ s4) in *.
+    assert (M5 : mode s5 = mode s1) by (cbn; rewrite (st_mode _ _ S4), (st_mode _ _ S3); reflexivity).
+    assert (L5 : late s5) by (unfold late; rewrite M5; exact L1).
+    rewrite wp_bind.
+    eapply (wp_reset_insertion_mode s5); [apply keeps_refl; exact I5 | exact L5 |].
+    intros m s6 K6 _ Em Sm Hm'. unfold set_mode_m. rewrite wp_bind, wp_modify, wp_bind.
+    pose proof K6 as [I6 S6].
+    assert (I7 : TInv (set_mode m s6)).
+    { apply (keeps_set_mode s5); [exact K6 | eapply keeps_late; eassumption | rewrite (st_mode _ _ S6), M5; exact NS1 | exact Em | exact Sm |].
+      intro Hn'. rewrite (st_head _ _ S6). apply Hm'. exact Hn'. }
+    set (s7 := set_mode m s6) in *.
+    assert (L7 : late s7) by exact Em.
+    eapply (wp_reset_insertion_mode s7); [apply keeps_refl; exact I7 | exact L7 |].
+    intros m2 s8 K8 _ Em2 Sm2 Hm2. rewrite wp_ret. split; [|apply res_ok_nonchars; reflexivity].
+    split; [|intro X; rewrite X in Sm2; discriminate]. pose proof K8 as [I8 S8].
+    apply (keeps_set_mode s7); [exact K8 | eapply keeps_late; eassumption | rewrite (st_mode _ _ S8); exact Sm | exact Em2 | exact Sm2 |].
+    intro Hn'. rewrite (st_head _ _ S8). apply Hm2. exact Hn'.
+  - (* 8 any start *) assert (C : is_chars t = false) by (apply Tag; simpl; tauto). apply wp_switch_template_mode; [exact I1 | exact L1 | apply NSof; exact C | reflexivity | exact C].
+  - (* 9 *) apply arm_unexpected. exact I1.
+Qed.
